@@ -21,7 +21,9 @@ Definition natlist_eqb := list_eqb Nat.eqb.
 Definition values (h : heap) : list bits := map (value h) (seq 0 (List.length (objects h))).
 '''
 
-CREATE = ['bin', 'hex', 'bytes', 'bytearray', 'memoryview', 'array', 'iter', 'bitarray', 'bitarray_kw', 'uint', 'file', 'str', 'fromstring']
+CREATE = ['bin', 'hex', 'bytes', 'bytearray', 'memoryview', 'memoryview_ro', 'memoryview_slice_ro', 'bytes_kw_bytearray', 'bytes_kw_memoryview_ro', 'array', 'iter',
+          'bitarray', 'bitarray_kw', 'bitarray_little', 'uint', 'file', 'str', 'fromstring']
+EXTERNAL = {'bytearray', 'memoryview', 'memoryview_ro', 'memoryview_slice_ro', 'bytes_kw_bytearray', 'bytes_kw_memoryview_ro', 'array', 'bitarray', 'bitarray_kw', 'bitarray_little'}
 DERIVE = ['construct', 'bits_kw', 'copycopy', 'dotcopy', 'slice', 'add', 'invert', 'mul', 'and', 'andself', 'orself', 'xor', 'lshift', 'join', 'pack', 'readbits',
           'cut', 'split', 'unpack', 'dotbits', 'underscore_copy', 'radd_str']
 MUTATE = ['append', 'prepend', 'invert_all', 'set0', 'clear', 'reverse', 'overwrite', 'insert', 'imul', 'setitem', 'ilshift', 'del', 'replace', 'byteswap', 'bits_assign']
@@ -47,10 +49,11 @@ def gen_cases(rng, tier):
             elif r < 0.65:
                 steps.append({'op': 'derive', 'how': rng.choice(DERIVE), 'cls': rng.choice(CLASSES), 'src': rng.randrange(nobj)})
                 nobj += 1
-            elif r < 0.93:
+            elif r < 0.9:
                 steps.append({'op': 'mutate', 'how': rng.choice(MUTATE), 'target': rng.randrange(nobj), 'other': rng.randrange(nobj)})
             else:
-                steps.append({'op': 'mutate_external', 'target': rng.randrange(nobj)})
+                ext = [j for j, s_ in enumerate(x for x in steps if x['op'] in ('create', 'derive')) if s_.get('how') in EXTERNAL]
+                steps.append({'op': 'mutate_external', 'target': rng.choice(ext) if ext and rng.random() < 0.8 else rng.randrange(nobj)})
         yield {'op': 'history', 'steps': steps}
 
 def kind(c): return 'history'
@@ -87,6 +90,16 @@ def run_impl(c):
                         e = bytearray(raw); o = C(e); externals[len(objs)] = e
                     elif how == 'memoryview':
                         e = bytearray(raw); o = C(memoryview(e)); externals[len(objs)] = e
+                    elif how == 'memoryview_ro':        # a read-only view of a buffer its owner can still change
+                        e = bytearray(raw); o = C(memoryview(e).toreadonly()); externals[len(objs)] = e
+                    elif how == 'memoryview_slice_ro':
+                        e = bytearray(b'\x5a' + raw + b'\xa5'); o = C(memoryview(e)[1:1 + len(raw)].toreadonly()); externals[len(objs)] = e
+                    elif how == 'bytes_kw_bytearray':
+                        e = bytearray(raw); o = C(bytes=e); externals[len(objs)] = e
+                    elif how == 'bytes_kw_memoryview_ro':
+                        e = bytearray(raw); o = C(bytes=memoryview(e).toreadonly()); externals[len(objs)] = e
+                    elif how == 'bitarray_little':
+                        e = bitarray.bitarray(b, endian='little'); o = C(e); externals[len(objs)] = e
                     elif how == 'array':
                         e = array.array('B', raw); o = C(e); externals[len(objs)] = e
                     elif how == 'iter': o = C([int(x) for x in b])
